@@ -74,9 +74,17 @@ class Checker:
     def pair(self, l, r, egs, egid):
         """all checks for one ordered pair of descriptions"""
         C, H, ctx = self.C, self.H, self.ctx
-        L, R = self.svc(l, egs), self.svc(r)
         # the TTL of an entry (0 = stop, 1.., 0xFFFFFF = forever) and the counter of a Subscribe are no part of any match
         self.n = getattr(self, "n", 0) + 1
+        # neither are the eventgroups and options the OTHER description happens to carry (a complete server-side description
+        # used as a client-side filter or handed to for_service): the right side rotates through bare / this eventgroup /
+        # other eventgroups / options
+        how = self.n % 5
+        L = self.svc(l, egs)
+        R = C.Service(r[0], r[1], r[2], r[3],
+                      eventgroups=(frozenset(), frozenset({egid}), frozenset({egid + 1, 9}), frozenset(egs), frozenset({egid, 9}))[how],
+                      options_1=self.opts[:1] if how in (2, 3) else (), options_2=self.opts[1:] if how in (3, 4) else ())
+        ctx.count("pairs_whose_right_side_carries_eventgroups_or_options" if how else "pairs_whose_right_side_is_bare")
         ttl = (5, 0, 0xFFFFFF, 1, 3, 0)[self.n % 6]
         offer = R.create_offer_entry(ttl)
         find = R.create_find_entry(ttl)
